@@ -267,6 +267,11 @@ class UnusedTranslator:
                 UniqueVariables(rules[0]), prg.index(rules[0]), list(hlit.atom.symbol.arguments), blit.atom.symbol
             )
 
+        # chains a(X) :- b(X). b(X) :- c(X). are resolved one link per round:
+        # replacing a by b while the rule for b is removed as well would leave b without a definition
+        body_of = {h: Predicate(m.symbol.name, len(m.symbol.arguments)) for h, m in mapping.items()}
+        mapping = {h: m for h, m in mapping.items() if body_of[h] not in mapping}
+
         used: set[int] = set()
 
         def convert(atom: AST) -> AST:
